@@ -4038,3 +4038,41 @@ mod tests {
         );
     }
 }
+
+/// Verification-only entry points (feature `echo_verif`).
+#[cfg(feature = "echo_verif")]
+impl Engine {
+    /// Enqueues a raw candidate (arbitrary sort key and footprint) into the
+    /// engine's scheduler for `tx`, bypassing matching.
+    ///
+    /// # Errors
+    /// Returns [`EngineError::UnknownTx`] if `tx` is not live.
+    pub fn verif_enqueue_raw(
+        &mut self,
+        tx: TxId,
+        candidate: crate::verif_hooks::RawCandidate,
+    ) -> Result<(), EngineError> {
+        if tx.value() == 0 || !self.live_txs.contains(&tx.value()) {
+            return Err(EngineError::UnknownTx);
+        }
+        self.scheduler
+            .enqueue(tx, crate::verif_hooks::pending_from_raw(candidate));
+        Ok(())
+    }
+
+    /// Drains the pending candidates of `tx`, runs the receipt-producing
+    /// reservation pass and closes the transaction without executing anything.
+    ///
+    /// # Errors
+    /// Propagates the errors of the reservation pass.
+    pub fn verif_reserve_only(&mut self, tx: TxId) -> Result<TickReceipt, EngineError> {
+        if tx.value() == 0 || !self.live_txs.contains(&tx.value()) {
+            return Err(EngineError::UnknownTx);
+        }
+        let drained = self.scheduler.drain_for_tx(tx);
+        let outcome = self.reserve_for_receipt(tx, drained);
+        self.live_txs.remove(&tx.value());
+        self.scheduler.finalize_tx(tx);
+        outcome.map(|o| o.receipt)
+    }
+}
